@@ -1408,7 +1408,7 @@ def run(tier):
         chk.violation('macros:crash', {'cfg': 'rel', 'kind': 'unused_macros'}, 'typed DER macros of der.h: %s' % str(um)[-600:])
     else:
         chk.part('unused_der_macros', states=3, transitions=um[0], traces_validated_against_impl=um[0], evaluations=um[0])
-        for m in um[1][:4]:
+        for m in um[1]:
             chk.violation('macros:' + m.split('(')[0].split(' ')[0], {'cfg': 'rel', 'kind': 'unused_macros'}, m)
     for c in d['capped']:
         chk.cap(c + ' not run: deadline')
